@@ -374,19 +374,21 @@ def check_todiag(rng, n, m):
     ab[u + oi + i - oj - j, oj + j], nothing else is written"""
     from smrt.rtsolver import dort as D
     oi, oj = int(rng.integers(0, 6)), int(rng.integers(0, 6))
-    u = max(n, m) + abs(oi - oj) + int(rng.integers(0, 3))
-    N = max(oi + n, oj + m) + int(rng.integers(0, 3))
-    ab = np.zeros((2 * u + 1, N))
-    blk = rng.uniform(1, 2, (n, m))
-    D.todiag(ab, oi, oj, blk)
-    want = np.zeros_like(ab)
-    for i in range(n):
-        for j in range(m):
-            want[u + oi + i - oj - j, oj + j] = blk[i, j]
-    if not np.array_equal(ab, want):
-        bad = np.argwhere(ab != want)
-        return ("todiag", f"a {n} x {m} block at offset ({oi}, {oj}) of a banded matrix with u = {u}: {len(bad)} entries of the storage are wrong "
-                f"(first at {bad[0].tolist()})", "every entry at ab[u + oi + i - oj - j, oj + j]")
+    # the narrowest band that holds the block (its corner entries then lie on the outermost diagonals), and wider ones
+    umin = max(oi - oj + n - 1, oj - oi + m - 1, 0)
+    for u in (umin, umin + 1, max(n, m) + abs(oi - oj) + int(rng.integers(0, 3))):
+        N = max(oi + n, oj + m) + int(rng.integers(0, 3))
+        ab = np.zeros((2 * u + 1, N))
+        blk = rng.uniform(1, 2, (n, m))
+        D.todiag(ab, oi, oj, blk)
+        want = np.zeros_like(ab)
+        for i in range(n):
+            for j in range(m):
+                want[u + oi + i - oj - j, oj + j] = blk[i, j]
+        if not np.array_equal(ab, want):
+            bad = np.argwhere(ab != want)
+            return ("todiag", f"a {n} x {m} block at offset ({oi}, {oj}) of a banded matrix with u = {u}: {len(bad)} entries of the storage are wrong "
+                    f"(first at {bad[0].tolist()})", "every entry at ab[u + oi + i - oj - j, oj + j]")
     return None
 
 
@@ -518,7 +520,44 @@ def check_compress(rng, kind, npol, ns, ni, nm, mode, reduce_):
         got = m.compress(mode=mode, auto_reduce_npol=reduce_)
     except NotImplementedError:
         return None
-    got = compressed_dense(got)
+    got = np.array(compressed_dense(got))         # a copy: the compressed form may be a view of the storage
+    if kind in ("d4", "d5", "e4", "e5"):
+        # the same container asked again with the other reduction flag, written to, and asked again: each answer is that of its own request
+        d_all = dense_of_sm(m)
+        other = compressed_dense(m.compress(mode=mode, auto_reduce_npol=not reduce_))
+        sel = (lambda a: a[:, :, mode] if kind in ("d5", "e5") else a)
+        d2 = sel(d_all)
+        if npol == 3 and (not reduce_) and mode == 0:
+            d2 = d2[:2, :2]
+        P2 = d2.shape[0]
+        req2 = np.zeros((d2.shape[2] * P2, d2.shape[3] * P2))
+        for p_ in range(P2):
+            for q_ in range(P2):
+                req2[p_::P2, q_::P2] = d2[p_, q_]
+        again = compressed_dense(m.compress(mode=mode, auto_reduce_npol=reduce_))
+        if other.shape != req2.shape or not np.allclose(other, req2, rtol=1e-13, atol=1e-13) or again.shape != req.shape or \
+                not np.allclose(again, req, rtol=1e-13, atol=1e-13):
+            return ("smrt_matrix:compress:repeat", f"compress(mode={mode}) of one {kind} container ({npol} polarisations, {ns} x {ni} directions) asked with "
+                    f"auto_reduce_npol={reduce_}, then {not reduce_}, then {reduce_} again: the answers are not those of the requests",
+                    dict(shapes=[list(got.shape), list(other.shape), list(again.shape)]), dict(shapes=[list(req.shape), list(req2.shape), list(req.shape)]))
+        try:
+            idx = tuple(0 for _ in np.shape(m.values))
+            m.values[idx] = m.values[idx] + 1.0
+            m[idx] = m.values[idx]
+        except Exception:  # noqa
+            idx = None
+        if idx is not None:
+            d3 = sel(dense_of_sm(m))
+            if npol == 3 and reduce_ and mode == 0:
+                d3 = d3[:2, :2]
+            req3 = np.zeros_like(req)
+            for p_ in range(P):
+                for q_ in range(P):
+                    req3[p_::P, q_::P] = d3[p_, q_]
+            after = compressed_dense(m.compress(mode=mode, auto_reduce_npol=reduce_))
+            if after.shape != req3.shape or not np.allclose(after, req3, rtol=1e-13, atol=1e-13):
+                return ("smrt_matrix:compress:repeat", f"compress(mode={mode}, auto_reduce_npol={reduce_}) of a {kind} container after one of its entries was "
+                        f"assigned: the value compressed before the assignment is returned", float(np.abs(after - req3).max()), "the current values")
     if got.shape != req.shape or not np.allclose(got, req, rtol=1e-13, atol=1e-13):
         return (f"smrt_matrix:compress:{'rectangular' if ns != ni else 'square'}", f"compress(mode={mode}, auto_reduce_npol={reduce_}) of a {kind} container "
                 f"({npol} polarisations, {ns} x {ni} directions) is not the (direction, polarisation) re-indexing", dict(shape=list(got.shape)),
